@@ -342,6 +342,7 @@ def run(ctx):
                                                      model=mouts[i] if i < len(mouts) else None))
     generated_model(ctx, reqs, impl_outs, metas)
     needle(ctx)
+    marathon(ctx)
 
 
 def generated_model(ctx, reqs, impl_outs, metas):
@@ -383,3 +384,52 @@ def generated_model(ctx, reqs, impl_outs, metas):
             i = next((i for i in range(min(len(want), len(gouts))) if want[i] != gouts[i]), min(len(want), len(gouts)))
             ctx.disagreement("generated-listdict-state", dict(rep, first_diff_op=i, impl=want[i] if i < len(want) else None,
                                                                generated=gouts[i] if i < len(gouts) else None))
+
+
+def marathon(ctx):
+    """ONE structure through tens of thousands of operations (what a long weighted simulation does to its candidate sets):
+    anything that only happens every so many changes (periodic recomputation, amortised clean-up, counters that wrap) is
+    invisible to short histories.  Weights are multiples of 1/8 below 2**10, so every total is exact in binary floating point
+    and the property-level predicates (total = sum of the current weights, maximum bounds every weight, position map, weight
+    table = items) are checked exactly after EVERY operation against an independent dict."""
+    import EoN.simulation as sim
+    for run_ in range(ctx.scale(5, 16)):
+        r = ctx.rng
+        nops = ctx.scale(45000, 90000)
+        universe = [("m", i) for i in range(r.choice([4, 8, 16]))]
+        ld = sim._ListDict_(weighted=True)
+        oracle = {}
+        rep = dict(entry="_ListDict_", stream="marathon", ops=nops, universe=len(universe), seed_run=run_)
+        ctx.count("marathon")
+        ctx.case(rep, nontrivial=True)
+        bad = None
+        for step in range(nops):
+            it = r.choice(universe)
+            w = r.randint(1, 32) / 8.0
+            kind = r.random()
+            try:
+                if it not in oracle:
+                    if kind < 0.5:
+                        ld.insert(it, weight=w); oracle[it] = w; what = "insert"
+                    else:
+                        ld.update(it, weight_increment=w); oracle[it] = w; what = "update-new"
+                elif kind < 0.35:
+                    ld.remove(it); del oracle[it]; what = "remove"
+                elif kind < 0.6:
+                    ld.update(it, weight_increment=w); oracle[it] += w; what = "increment"
+                elif kind < 0.8:
+                    ld.insert(it, weight=w); oracle[it] = w; what = "replace"
+                else:
+                    ld.insert(it, weight=0)                # documented: weight 0 removes the item
+                    del oracle[it]; what = "insert0"
+            except Exception as e:
+                bad = "step %d (%s %s) raised %s" % (step, what if 'what' in dir() else '?', it, type(e).__name__)
+                break
+            if ld.total_weight() != sum(oracle.values()) or set(ld.items) != set(oracle) or \
+                    any(ld.weight[x] != oracle[x] for x in oracle) or (oracle and ld.max_weight < max(oracle.values())):
+                fails = predicates(ld)
+                bad = "after step %d (%s %s): total_weight()=%r, the current weights sum to %r; %s" % (
+                    step, what, list(it), ld.total_weight(), sum(oracle.values()), fails)
+                break
+        if bad:
+            ctx.violation("_ListDict_ long history: " + bad, dict(rep, failure=bad))
